@@ -698,6 +698,10 @@ def shard_long(acc, shard, nshards, n_cases, nmax):
     engine.hyp_run(acc, "long_levels", check_long_levels, long_cases(nmax), n_cases, shard)
 
 
+# coverage-guided variants of the structured generators (thorough tier, pv/fuzz/target.py hyp:<name>)
+FUZZ = {"history": ("history", history_cases)}
+
+
 def run(acc, tier):
     engine.pmap(acc, shard_long, extra=((4, 9) if tier == "quick" else (40, 11)))
     if tier == "quick":
@@ -707,3 +711,4 @@ def run(acc, tier):
         engine.pmap(acc, shard_orders, extra=(3, 4, 7))
         engine.pmap(acc, shard_orders, extra=(4, 2, 7))
         engine.pmap(acc, shard_histories, extra=(500, 150))
+        engine.fuzz(acc, "hyp:history", CHECKS, 1500, max_len=4096)
